@@ -19,6 +19,9 @@ structure Case where
   label : String
   out : Array (Option Rat)
   flags : List Bool
+  /-- the exact model's outputs on the same operands (used where the property IS "equals the exact composition") -/
+  exact : Array (Option Rat) := #[]
+  exactCls : String := ""
 
 def Case.eps (c : Case) : Rat := c.fmt.eps
 
@@ -294,8 +297,126 @@ def oracleC08 (c : Case) : Option (List String) :=
     else some (check "C08.abduce_none_iff" (decide (w ≠ 0)))
   | _ => none
 
+/-- projected probabilities of a conditional table: P(y|x) = b(y|x) + a_y u_x -/
+def condProj (cs : List (List Rat × Rat)) (ay : List Rat) : List (List Rat) :=
+  cs.map fun c => projQ c.1 c.2 ay
+
+/-- Bayes posterior P(x|y) for column y; `none` when the likelihood column is all zero -/
+def bayesCol (ax : List Rat) (pyx : List (List Rat)) (y : Nat) : Option (List Rat) :=
+  let col := pyx.map fun row => row.getD y 0
+  let q := sumQ (List.zipWith (· * ·) ax col)
+  if col.all (fun p => decide (p = 0)) || q = 0 then none
+  else some (List.zipWith (fun a p => a * p / q) ax col)
+
+/-- checks on one inverted table (list over y of (b over x, u)) -/
+def checkInverse (pfx : String) (τ : Rat) (ax ay : List Rat) (cs : List (List Rat × Rat))
+    (inv : List (List Rat × Rat)) : List String :=
+  let pyx := condProj cs ay
+  let n := ax.length
+  (List.range inv.length).flatMap fun y =>
+    let w := inv.getD y ([], 0)
+    let wf := check (pfx ++ ".wf") (wfSimplex (τ * (n + 1)) w.1 w.2)
+    match bayesCol ax pyx y with
+    | none => wf ++ check (pfx ++ ".zero_column_vacuous") (closeQ τ w.2 1 && w.1.all (fun v => closeQ τ v 0))
+    | some post =>
+      let uhat := (List.zip post ax).foldl (fun acc pa => if pa.2 > 0 then minQ acc (pa.1 / pa.2) else acc) 1
+      let col := pyx.map fun row => row.getD y 0
+      let const := col.all fun p => decide (p = col.headD 0)
+      wf ++ check (pfx ++ ".bayes") (closeList τ (projQ w.1 w.2 ax) post)
+        ++ check (pfx ++ ".u_bound") (decide (w.2 ≤ uhat + τ))
+        ++ (if const then check (pfx ++ ".irrelevant_vacuous") (closeQ τ w.2 1) else [])
+
+/-- C05: inversion obeys Bayes; abduction deduces through the inverted table -/
+def oracleC05 (c : Case) : Option (List String) :=
+  let n := c.ints.getD 0 0
+  let m := c.ints.getD 1 0
+  match allSome c.inp with
+  | none => none
+  | some xs =>
+  let τ := tauSpec c.fmt * 16
+  match c.op with
+  | "inverse" =>
+    let cs := condAt xs 0 n m
+    let ax := slice xs (n * (m + 1)) n
+    let ay := slice xs (n * (m + 1) + n) m
+    if !(condWf 0 cs && wfBaseRate 0 ax && wfBaseRate 0 ay && ax.all (fun v => decide (0 < v)) && ay.all (fun v => decide (0 < v))) then none else
+    withValue c "C05" fun out =>
+      let inv := condAt out 0 m n
+      checkInverse "C05" τ ax ay cs inv
+  | "abduce" | "abduce_with" =>
+    let sb := slice xs 0 m
+    let su := xs.getD m 0
+    let cs := condAt xs (2 * m + 1) n m
+    let ax := slice xs (2 * m + 1 + n * (m + 1)) n
+    let ayOpt : Option (List Rat) :=
+      if c.op == "abduce_with" then some (slice xs (2 * m + 1 + n * (m + 1) + n) m)
+      else
+        -- marginal base rate (exact): a_y ∝ Σ_x a_x b(y|x)
+        let raw := (List.range m).map fun y => sumQ (List.zipWith (fun a cc => a * cc.1.getD y 0) ax cs)
+        let t := sumQ raw
+        if t = 0 then none else some (raw.map (· / t))
+    if !(condWf 0 cs && wfBaseRate 0 ax && wfSimplex 0 sb su && ax.all (fun v => decide (0 < v))) then none else
+    match ayOpt with
+    | none => if c.cls == "none" then some [] else some ["C05.abduce_none_iff"]
+    | some ay =>
+      if !(wfBaseRate (tauSpec c.fmt) ay && ay.all (fun v => decide (0 < v))) then none else
+      withValue c "C05" fun out =>
+        let (b, u, a) := opinionAt out 0 n
+        let pyx := condProj cs ay
+        let py := projQ sb su ay
+        -- P(x) = Σ_y P(y) P(x|y)
+        let want : Option (List Rat) := (List.range m).foldl (fun acc y =>
+          match acc, bayesCol ax pyx y with
+          | some v, some post => some (List.zipWith (fun s p => s + py.getD y 0 * p) v post)
+          | some v, none => some (List.zipWith (fun s a => s + py.getD y 0 * a) v ax)
+          | none, _ => none) (some (ax.map fun _ => 0))
+        check "C05.abduce_wf" (wfSimplex (τ * (n + 1)) b u)
+          ++ check "C05.abduce_base_rate" (closeList τ a ax)
+          ++ (match want with
+              | some w => check "C05.abduce_projection" (closeList τ (projQ b u ax) w)
+              | none => [])
+  | _ => none
+
+/-- C11: merged joint conditionals -/
+def oracleC11 (c : Case) : Option (List String) :=
+  let n1 := c.ints.getD 0 0
+  let n2 := c.ints.getD 1 0
+  let m := c.ints.getD 2 0
+  match allSome c.inp with
+  | none => none
+  | some xs =>
+  let τ := tauSpec c.fmt * 64
+  if c.op != "merge" then none else
+  let c1 := condAt xs 0 n1 m
+  let c2 := condAt xs (n1 * (m + 1)) n2 m
+  let o := n1 * (m + 1) + n2 * (m + 1)
+  let ax1 := slice xs o n1
+  let ax2 := slice xs (o + n1) n2
+  let ay := slice xs (o + n1 + n2) m
+  if !(condWf 0 c1 && condWf 0 c2 && wfBaseRate 0 ax1 && wfBaseRate 0 ax2 && wfBaseRate 0 ay
+        && ax1.all (fun v => decide (0 < v)) && ax2.all (fun v => decide (0 < v)) && ay.all (fun v => decide (0 < v))) then none else
+  withValue c "C11" fun out =>
+    let cells := condAt out 0 (n1 * n2) m
+    let wfs := (List.range cells.length).flatMap fun k =>
+      let w := cells.getD k ([], 0)
+      check "C11.cell_wf" (wfSimplex (τ * (m + 1)) w.1 w.2)
+    -- the property's definition: equal to the exact composition inverse ∘ product ∘ inverse, cell by cell;
+    -- in particular a cell that is vacuous in exact arithmetic (impossible joint value) must be vacuous
+    let cmp := match allSome c.exact with
+      | none => []
+      | some ex =>
+        let ecells := condAt ex 0 (n1 * n2) m
+        (List.range cells.length).flatMap fun k =>
+          let w := cells.getD k ([], 0)
+          let e := ecells.getD k ([], 0)
+          if e.2 = 1 then check "C11.impossible_cell_vacuous" (closeQ τ w.2 1 && w.1.all (fun v => closeQ τ v 0))
+          else check "C11.equals_composition" (closeQ τ w.2 e.2 && closeList τ w.1 e.1)
+    wfs ++ cmp
+
 def oracle (c : Case) : Option (List String) :=
   match c.prop with
+  | "C05" => oracleC05 c
+  | "C11" => oracleC11 c
   | "C08" => oracleC08 c
   | "C02" => oracleFuse c false
   | "C03" => oracleFuse c true
